@@ -17,6 +17,7 @@ import (
 // background, and 2-3 driver threads with 1-3 calls each.
 type cscript struct {
 	name    string
+	quick   bool // part of the quick tier
 	cfg     string
 	bg      string     // none | build (drivers race the initial build) | rebuild | rebuild!err@k | rebuild!cancel@k | rebuild2 (two Rebuild threads)
 	threads [][]string // "Put B", "Has A1", "PutMany A0 B", "Delete B", "GetSize B", "View B", "Get B"
@@ -71,13 +72,18 @@ func (x *exec) Main() {
 		in.status.Wait(context.Background())
 		in.f.cancelFn = nil
 	}
-	var dones []chan struct{}
+	// no separate final thread and no done channels (every blocking point
+	// multiplies the schedule space): the driver that finishes last issues the
+	// final calls.
+	nDrivers := len(sc.threads)
+	finished := 0
 	spawn := func(name string, body func()) {
-		d := vsched.Reg(make(chan struct{}))
-		dones = append(dones, d)
 		vsched.GoNamed(name, true, func() {
-			defer vsched.Close(d)
 			body()
+			finished++
+			if finished == nDrivers {
+				x.finalCalls()
+			}
 		})
 	}
 	if strings.HasPrefix(sc.bg, "rebuild") {
@@ -91,6 +97,7 @@ func (x *exec) Main() {
 		if spec != "" {
 			in.f.enums = []enumFault{parseEnumFault(spec)}
 		}
+		nDrivers += n
 		for i := 0; i < n; i++ {
 			thr := 100 + i
 			spawn(fmt.Sprintf("rebuild%d", i), func() {
@@ -118,22 +125,19 @@ func (x *exec) Main() {
 			}
 		})
 	}
-	ds := dones
-	vsched.GoNamed("final", true, func() {
-		for _, d := range ds {
-			vsched.Recv((<-chan struct{})(d))
+}
+
+func (x *exec) finalCalls() {
+	for _, op := range x.sc.final {
+		x.do(200, op)
+	}
+	if x.sc.bg == "build" && x.in.status != nil {
+		// the same reads again once the initial build is over
+		x.in.status.Wait(context.Background())
+		for _, op := range x.sc.final {
+			x.do(201, op)
 		}
-		for _, op := range sc.final {
-			x.do(200, op)
-		}
-		if sc.bg == "build" && in.status != nil {
-			// reads again once the initial build is over
-			in.status.Wait(context.Background())
-			for _, op := range sc.final {
-				x.do(201, op)
-			}
-		}
-	})
+	}
 }
 
 func (x *exec) AtEnd(*vsched.Result) {}
@@ -353,28 +357,40 @@ func linearizable(ops []lop, init map[string][]byte) bool {
 func concScripts(thorough bool) []*cscript {
 	s := []*cscript{
 		// two-queue cache: same key from two threads (alias CIDs share the cache key and the per-key lock)
-		{name: "tq-put-del", cfg: "layer=tq,tq=2", bg: "none", threads: [][]string{{"Put B", "Has B"}, {"Delete B", "Has B"}}, final: []string{"Has B", "Get B"}},
-		{name: "tq-alias", cfg: "layer=tq,tq=2,pre=A0", bg: "none", threads: [][]string{{"Delete A1", "Put A0"}, {"Has A1", "GetSize A0"}}, final: []string{"Has A0", "GetSize A1"}},
-		{name: "tq-putmany-order", cfg: "layer=tq,tq=4", bg: "none", threads: [][]string{{"PutMany A0 B"}, {"PutMany B A1"}, {"Delete B"}}, final: []string{"Has B", "Has A0"}, delta: -1},
-		{name: "tq-evict", cfg: "layer=tq,tq=2,pre=B", bg: "none", threads: [][]string{{"Has A0", "Has C", "Has B"}, {"Delete B", "Put B"}}, final: []string{"Has B", "GetSize B"}},
+		{name: "tq-put-del", quick: true, cfg: "layer=tq,tq=2", bg: "none", threads: [][]string{{"Put B", "Has B"}, {"Delete B", "Has B"}}, final: []string{"Has B", "Get B"}},
+		{name: "tq-alias", quick: true, cfg: "layer=tq,tq=2,pre=A0", bg: "none", threads: [][]string{{"Delete A1", "Put A0"}, {"Has A1", "GetSize A0"}}, final: []string{"Has A0", "GetSize A1"}},
+		{name: "tq-putmany-order", quick: true, cfg: "layer=tq,tq=4", bg: "none", threads: [][]string{{"PutMany A0 B"}, {"PutMany B A1"}, {"Delete B"}}, final: []string{"Has B", "Has A0"}, delta: -1},
+		{name: "tq-evict", quick: true, cfg: "layer=tq,tq=2,pre=B", bg: "none", threads: [][]string{{"Has A0", "Has C", "Has B"}, {"Delete B", "Put B"}}, final: []string{"Has B", "GetSize B"}},
 		{name: "tq-view-noviewer", cfg: "layer=tq,tq=2,view=0,pre=B", bg: "none", threads: [][]string{{"View B", "Delete B"}, {"View B", "Put B"}}, final: []string{"View B"}},
 		// Bloom cache: calls racing the initial build
-		{name: "bloom-build", cfg: "layer=bloom,pre=B", bg: "build", threads: [][]string{{"Has B", "Put C"}, {"Get C", "Has C"}}, final: []string{"Has B", "Has C"}},
-		{name: "bloom-build-err", cfg: "layer=bloom,pre=A0+B,build=err@1", bg: "build", threads: [][]string{{"Has B", "Put C"}, {"Has A1"}}, final: []string{"Has B", "Has C", "Has A0"}},
+		{name: "bloom-build", quick: true, cfg: "layer=bloom,pre=B", bg: "build", threads: [][]string{{"Has B", "Put C"}, {"Get C", "Has C"}}, final: []string{"Has B", "Has C"}},
+		{name: "bloom-build-err", quick: true, cfg: "layer=bloom,pre=A0+B,build=err@1", bg: "build", threads: [][]string{{"Has B", "Put C"}, {"Has A1"}}, final: []string{"Has B", "Has C", "Has A0"}},
 		{name: "bloom-build-cancel", cfg: "layer=bloom,pre=A0+B,build=cancel@1", bg: "build", threads: [][]string{{"Has B"}, {"Has A1"}}, final: []string{"Has B", "Has A0"}},
 		// Bloom cache: calls racing Rebuild
-		{name: "bloom-rebuild-read", cfg: "layer=bloom,pre=B", bg: "rebuild", threads: [][]string{{"Has B", "Get B"}}, final: []string{"Has B"}},
-		{name: "bloom-rebuild-put", cfg: "layer=bloom,pre=B", bg: "rebuild", threads: [][]string{{"Put A0", "Has A1"}}, final: []string{"Has A0", "Has B"}},
-		{name: "bloom-rebuild-err", cfg: "layer=bloom,pre=A0+B", bg: "rebuild!err@1", threads: [][]string{{"Put C", "Has C"}}, final: []string{"Has A0", "Has B", "Has C"}},
+		{name: "bloom-rebuild-read", quick: true, cfg: "layer=bloom,pre=B", bg: "rebuild", threads: [][]string{{"Has B", "Get B"}}, final: []string{"Has B"}},
+		{name: "bloom-rebuild-put", quick: true, cfg: "layer=bloom,pre=B", bg: "rebuild", threads: [][]string{{"Put A0", "Has A1"}}, final: []string{"Has A0", "Has B"}},
+		{name: "bloom-rebuild-err", quick: true, cfg: "layer=bloom,pre=A0+B", bg: "rebuild!err@1", threads: [][]string{{"Put C", "Has C"}}, final: []string{"Has A0", "Has B", "Has C"}},
 		{name: "bloom-rebuild-cancel", cfg: "layer=bloom,pre=A0+B", bg: "rebuild!cancel@1", threads: [][]string{{"Put C"}}, final: []string{"Has A0", "Has B", "Has C"}},
 		{name: "bloom-rebuild2", cfg: "layer=bloom,pre=B", bg: "rebuild2", threads: [][]string{{"Put A0"}}, final: []string{"Has A0", "Has B"}, delta: -1},
 		// both layers through the public constructor
-		{name: "both-rebuild", cfg: "layer=both,tq=2,pre=B", bg: "rebuild", threads: [][]string{{"Delete B", "Put B"}, {"Has B"}}, final: []string{"Has B", "GetSize B"}, delta: -1},
+		{name: "both-rebuild", quick: true, cfg: "layer=both,tq=2,pre=B", bg: "rebuild", threads: [][]string{{"Delete B", "Put B"}, {"Has B"}}, final: []string{"Has B", "GetSize B"}, delta: -1},
 		{name: "both-build", cfg: "layer=both,tq=2,pre=B", bg: "build", threads: [][]string{{"Put A0", "Has A1"}, {"Delete A1"}}, final: []string{"Has A0", "Has B"}},
 		// base store whose enumeration is a lazy walk (not a snapshot)
 		{name: "bloom-rebuild-live", cfg: "layer=bloom,pre=B,live=1", bg: "rebuild", threads: [][]string{{"Put A0", "Put C"}}, final: []string{"Has A0", "Has B", "Has C"}},
 		// base store that cannot report a truncated enumeration
-		{name: "bloom-rebuild-noerrer", cfg: "layer=bloom,errer=0,pre=A0+B", bg: "rebuild!cancel@1", threads: [][]string{{"Has B"}}, final: []string{"Has A0", "Has B"}},
+		{name: "bloom-rebuild-noerrer", quick: true, cfg: "layer=bloom,errer=0,pre=A0+B", bg: "rebuild!cancel@1", threads: [][]string{{"Has B"}}, final: []string{"Has A0", "Has B"}},
+		// constructor: HasTwoQueueCacheSize=1 makes lru.New2Q fail (ghost list of size 0); with a Bloom filter
+		// configured the error is overwritten and a store wrapping a nil *tqcache is returned
+		{name: "ctor-tq1-bloom", quick: true, cfg: "layer=both,tq=1,pre=B", bg: "none", threads: [][]string{{"Has B"}}},
+	}
+	if !thorough {
+		var q []*cscript
+		for _, c := range s {
+			if c.quick {
+				q = append(q, c)
+			}
+		}
+		return q
 	}
 	return s
 }
